@@ -928,7 +928,168 @@ func validationErrpropRule(w *World, r *Report, rule string) {
 					}
 				}
 			}
-			r.Check(ok, rule, construct, w.Pos(s.Instr.Pos()), "returned directly, or its non-nil edge ends in a return of a non-nil error", "the verdict of a validation step can be lost: on the edge on which it reports an error the validating function can still return nil - parameter sets the step rejects are accepted and stored")
+			if !ok {
+				ok = errorKeptUnder(f, call, ev)
+			}
+			r.Check(ok, rule, construct, w.Pos(s.Instr.Pos()), "returned directly, or its non-nil edge ends in a return of a non-nil error, or - assuming the step reported an error - every return that can follow the call carries a non-nil error", "the verdict of a validation step can be lost: on the edge on which it reports an error the validating function can still return nil - parameter sets the step rejects are accepted and stored")
 		}
 	}
+}
+
+// errorKeptUnder: assume the call reported an error (its error values ev are non-nil). The function is explored under
+// that assumption (conditions that test a value known to be non-nil are followed on one side only; a phi all of whose
+// live alternatives are known non-nil becomes known; three rounds). The verdict is kept when every return that can
+// follow the call then carries a non-nil error - the shape `err := a(); if err != nil { err = wrap(err) }; if err == nil
+// { err = b() }; return err`.
+func errorKeptUnder(f *ssa.Function, call *ssa.Call, ev map[ssa.Value]bool) bool {
+	ok, _ := errorKeptUnderX(f, call, ev)
+	return ok
+}
+
+// errorKeptUnderX also returns the blocks that can follow the call under the assumption.
+func errorKeptUnderX(f *ssa.Function, call *ssa.Call, ev map[ssa.Value]bool) (bool, map[*ssa.BasicBlock]bool) {
+	known := map[ssa.Value]bool{}
+	for v := range ev {
+		known[v] = true
+	}
+	isKnown := func(v ssa.Value) bool {
+		if known[v] {
+			return true
+		}
+		switch v.(type) {
+		case *ssa.MakeInterface, *ssa.Call, *ssa.Const, *ssa.ChangeInterface:
+			return nonNilAtKnown(v, known, 0)
+		}
+		return false
+	}
+	eval := func(base ssa.Value) (bool, bool) {
+		bo, ok := base.(*ssa.BinOp)
+		if !ok || (bo.Op != token.EQL && bo.Op != token.NEQ) {
+			return false, false
+		}
+		var other ssa.Value
+		if k, isK := bo.Y.(*ssa.Const); isK && k.Value == nil {
+			other = bo.X
+		} else if k, isK := bo.X.(*ssa.Const); isK && k.Value == nil {
+			other = bo.Y
+		}
+		if other == nil || !isErrorType(other.Type()) || !isKnown(other) {
+			return false, false
+		}
+		return bo.Op == token.NEQ, true
+	}
+	var live *Live
+	for round := 0; round < 3; round++ {
+		live = ReachUnder(f, eval)
+		grew := false
+		for _, b := range f.Blocks {
+			for _, in := range b.Instrs {
+				phi, isPhi := in.(*ssa.Phi)
+				if !isPhi || known[phi] || !isErrorType(phi.Type()) || !live.Blocks[b] {
+					continue
+				}
+				alts := live.LiveValues(phi)
+				all := len(alts) > 0
+				for _, a := range alts {
+					if !isKnown(a) {
+						all = false
+					}
+				}
+				if all {
+					known[phi] = true
+					grew = true
+				}
+			}
+		}
+		if !grew {
+			break
+		}
+	}
+	// blocks that can follow the call along live edges
+	after := map[*ssa.BasicBlock]bool{call.Block(): true}
+	work := []*ssa.BasicBlock{call.Block()}
+	for len(work) > 0 {
+		b := work[len(work)-1]
+		work = work[:len(work)-1]
+		for i, sc := range b.Succs {
+			if live.Edges[Edge{b, i}] && !after[sc] {
+				after[sc] = true
+				work = append(work, sc)
+			}
+		}
+	}
+	// the alternatives of a returned value that can arrive after the call: phi edges that are live and come from a block
+	// that follows the call
+	var altsAfter func(v ssa.Value, seen map[ssa.Value]bool) []ssa.Value
+	altsAfter = func(v ssa.Value, seen map[ssa.Value]bool) []ssa.Value {
+		phi, isPhi := v.(*ssa.Phi)
+		if !isPhi || known[v] || seen[v] {
+			return []ssa.Value{v}
+		}
+		seen[v] = true
+		var out []ssa.Value
+		b := phi.Block()
+		for i, e := range phi.Edges {
+			pred := b.Preds[i]
+			if !after[pred] {
+				continue
+			}
+			for si, sc := range pred.Succs {
+				if sc == b && live.Edges[Edge{pred, si}] {
+					out = append(out, altsAfter(e, seen)...)
+					break
+				}
+			}
+		}
+		return out
+	}
+	n := 0
+	for _, ret := range Returns(f) {
+		if !after[ret.Block()] || !live.Blocks[ret.Block()] {
+			continue
+		}
+		rv := retVals(ret)
+		if len(rv) == 0 {
+			return false, after
+		}
+		n++
+		alts := altsAfter(rv[len(rv)-1], map[ssa.Value]bool{})
+		if len(alts) == 0 {
+			return false, after
+		}
+		for _, a := range alts {
+			if !isKnown(a) {
+				return false, after
+			}
+		}
+	}
+	return n > 0, after
+}
+
+// nonNilAtKnown: constructors and wrappers of errors over values known to be non-nil.
+func nonNilAtKnown(v ssa.Value, known map[ssa.Value]bool, depth int) bool {
+	if depth > 4 || v == nil {
+		return false
+	}
+	if known[v] {
+		return true
+	}
+	switch x := v.(type) {
+	case *ssa.MakeInterface:
+		return true
+	case *ssa.Const:
+		return x.Value != nil
+	case *ssa.ChangeInterface:
+		return nonNilAtKnown(x.X, known, depth+1)
+	case *ssa.Call:
+		q := callName(x.Common())
+		if errCtorNames[q] {
+			return true
+		}
+		if errWrapNames[q] && len(x.Common().Args) > 0 {
+			return nonNilAtKnown(x.Common().Args[0], known, depth+1) || nonNilAt(x.Common().Args[0], x.Block(), 0)
+		}
+		return nonNilAt(v, x.Block(), 0)
+	}
+	return false
 }
